@@ -45,6 +45,8 @@ const (
 	RegimeV1 Regime = "v1"
 	RegimeX  Regime = "x"
 	RegimeV2 Regime = "v2"
+	// RegimeS (syncer scenarios): v2 allowed from 2, required from 8, final cut at 10
+	RegimeS Regime = "s"
 )
 
 // SC is shorthand for whole siacoins.
@@ -76,6 +78,8 @@ func Network(reg Regime) (*consensus.Network, types.Block) {
 		n.HardforkV2.AllowHeight, n.HardforkV2.RequireHeight, n.HardforkV2.FinalCutHeight = 3, 5, 6
 	case RegimeV2:
 		n.HardforkV2.AllowHeight, n.HardforkV2.RequireHeight, n.HardforkV2.FinalCutHeight = 1, 1, 1
+	case RegimeS:
+		n.HardforkV2.AllowHeight, n.HardforkV2.RequireHeight, n.HardforkV2.FinalCutHeight = 2, 8, 10
 	}
 	n.HardforkV2.EphemeralOutputHeight = n.HardforkV2.AllowHeight
 	txn := types.Transaction{}
